@@ -9,6 +9,11 @@ Families: `histories` (random histories, 3 hosts x 2 ports, store operations by 
 (client certificate, store operations - also an import that fails part-way, export + import - on the client's OWN store
 object, redirects across host names, look-alike host names with `_` / `%`, HOME isolated: no other pin store may appear),
 `small_scope` (exhaustive).  The pin store is observed by an independent read-only SQLite connection after every step.
+
+Further dimensions of every history: LOOK-ALIKE certificates (another DER around the issuer name + serial number, or around the key,
+of a certificate of the pool); `["age", days]` = time passes without anybody touching the store (all its timestamps move into the
+past; a year boundary is in the value set); `["newclient", fault]` = the application builds one more GeminiClient on the store
+while the file is locked by another connection / cannot be opened / cannot be written (sim/client_storefault.py).
 """
 from __future__ import annotations
 
@@ -43,6 +48,14 @@ ASSUMPTIONS = [
     "the pin store is observed by an independent read-only SQLite connection (SELECT hostname, port, fingerprint FROM known_hosts) after every step: "
     "'host:port has a pinned fingerprint' means a committed row of the configured store file, whatever a connection object of the client may hold uncommitted",
     "HOME points to an empty temporary directory during every history, so a pin store other than the configured one would appear there",
+    "time passing is simulated by rewriting first_seen / last_seen of every row with plain SQL (N days earlier), not by moving a clock: the code under test "
+    "then sees the store as it would N days later, whichever clock it reads; the passing of time and the construction of a client object are not trust-store "
+    "operations, so no pin may change at such a step (oracle pins-changed-without-operation) and the pins stay in force for the steps that follow",
+    "a store that cannot be used while a client is being BUILT (EXCLUSIVE lock held by a second connection with a 50 ms busy timeout instead of SQLite's 5 s, "
+    "sqlite3.connect raising 'unable to open database file', writes/commits failing) is injected through a shim for the sqlite3 module inside nauyaca.security.tofu; "
+    "a constructor that raises leaves the application with the client object it had; one that returns hands over the client used from then on",
+    "look-alike certificates are made by the harness with the `cryptography` package: same subject/issuer/serial number/validity/extensions around another key "
+    "(self-signed, or issued by the harness CA), and a re-issue with the same key under another serial number; they differ from the original in sha256(DER) only as far as the pin is concerned",
 ]
 LEVEL_TEXT = ("Lean 4 theorems over a hand-written model of the post-handshake pin check (GeminiClient._get_single / upload) and of "
               "TOFUDatabase.verify/trust/revoke/revoke_by_hostname/clear/import_toml, for ALL histories of fetches, uploads, redirect chains and "
